@@ -838,9 +838,14 @@ pub fn execute(ctx: &Arc<Ctx>) {
     rt::emit(&format!("ret {} ok", tid));
     ctx.status.lock().unwrap().insert(1000, (usize::MAX, "despawn", usize::MAX));
     rt::emit(&format!("inv {} despawn", tid + 1));
+    let spawned_before = vsched::thread::spawned_named();
     scheduler().despawn_threads_if_overloaded();
+    // every pool thread that existed when the call was made is gone when it returns (they are joined); only a thread
+    // spawned during or after the call can be left (see below)
+    let old_alive = vsched::thread::live_named_before(spawned_before);
     rt::emit(&format!("ret {} ok", tid + 1));
     ctx.status.lock().unwrap().remove(&1000);
+    if old_alive != 0 { ctx.fail(&["C17"], format!("despawn_threads_if_overloaded returned with {} of the pool threads that existed when it was called still alive and a maximum of 0", old_alive)); }
     // A scheduling call that read the old maximum before it was lowered may still spawn one thread afterwards (the maximum is
     // read in one critical section and used in the next): the property is about maxima changed between phases, so such
     // stragglers are collected by despawning again; a thread that survives that is a violation.
@@ -905,17 +910,20 @@ fn check_order(ctx: &Arc<Ctx>) {
             if cb.obj != ca.obj || !cb.accepted.load(Ordering::SeqCst) || !matches!(cb.kind, "desync" | "sync" | "trysync" | "fdesync" | "fsync" | "after") { continue; }
             let inv_b = cb.inv.load(Ordering::SeqCst);
             let start_b = cb.start.load(Ordering::SeqCst);
-            if inv_b == 0 || start_b == 0 || ret_a >= inv_b { continue; }
-            // A returned before B was invoked: A finishes before B starts
             let end_a = ca.end.load(Ordering::SeqCst);
             let start_a = ca.start.load(Ordering::SeqCst);
             if ca.kind == "suspend" {
-                // B was scheduled after the suspend request: it may not start before the resumer is used or dropped
-                if start_a != 0 && (end_a == 0 || end_a > start_b) && start_b > start_a {
-                    ctx.fail(&["C13"], format!("operation {} ({}) scheduled after suspend {} started while the queue was suspended", b, cb.kind, a));
+                // no operation of the object may start between the moment the awaiting thread saw the suspend future resolve
+                // (start_a) and the moment the resumer is used or dropped (end_a), whenever it was scheduled: one scheduled
+                // before the suspension has completed by then, one scheduled after it (or concurrently with it: it is ordered
+                // one way or the other) waits
+                if inv_b != 0 && start_b != 0 && start_a != 0 && (end_a == 0 || end_a > start_b) && start_b > start_a {
+                    ctx.fail(&["C13"], format!("operation {} ({}) started while the queue was suspended by suspend {}", b, cb.kind, a));
                 }
                 continue;
             }
+            if inv_b == 0 || start_b == 0 || ret_a >= inv_b { continue; }
+            // A returned before B was invoked: A finishes before B starts
             if ca.kind == "fsync" && start_a == 0 { continue; } // never started (cancelled before its slot)
             if end_a == 0 || end_a > start_b {
                 let p: &[&'static str] = if ca.kind == "fsync" { &["C02", "C08"] } else { &["C02"] };
